@@ -78,7 +78,12 @@ def gen(seed: int, tier: str) -> dict[str, Any]:
         ops.append({"t": round(rng.uniform(0.3, horizon), 6), "op": "replay_attack"})
     ops.sort(key=lambda o: o["t"])
     cfg = {"chunk": rng.choice([None, None, 1, 5, 7, 33]), "horizon": horizon, "batch": 1,
-           "bad_dev_mac": (not clean) and rng.random() < 0.05, "auth_fail": (not clean) and rng.random() < 0.05}
+           "bad_dev_mac": (not clean) and rng.random() < 0.05, "auth_fail": (not clean) and rng.random() < 0.05,
+           # the gateway refuses the first authentication(s) (e.g. no free tunnel for that user yet); the user calls
+           # connect() again on the same object
+           "auth_refused_first": rng.choice([1, 1, 2]) if (not clean) and rng.random() < 0.12 else 0}
+    if cfg["bad_dev_mac"] or cfg["auth_fail"]:
+        cfg["auth_refused_first"] = 0
     return {"seed": seed, "tier": "S", "config": cfg, "ops": ops}
 
 
@@ -96,6 +101,8 @@ def run(plan: dict[str, Any]) -> dict[str, Any]:
     gw.bad_dev_mac = cfg["bad_dev_mac"]
     if cfg["auth_fail"]:
         gw.auth_result = 1
+    elif cfg.get("auth_refused_first"):
+        gw.auth_results = [rng.choice([1, 2, 3])] * cfg["auth_refused_first"]     # failed / unauthenticated / timeout status
     delivered: list[tuple[int, int]] = []      # (svc, id) reaching registered callbacks
     expected: list[tuple[int, int]] = []       # model
     last_acc: dict[int, int] = {}              # per tcp connection: last accepted counter (model)
@@ -229,11 +236,19 @@ def run(plan: dict[str, Any]) -> dict[str, Any]:
         tasks = []
 
         async def do_connect():
-            try:
-                await tunnel.connect()
-                info["connect"] = "ok"
-            except CommunicationError as exc:
-                info["connect"] = f"failed:{type(exc).__name__}"
+            for attempt in range(1 + cfg.get("auth_refused_first", 0)):
+                try:
+                    await tunnel.connect()
+                    info["connect"] = "ok"
+                    return
+                except CommunicationError as exc:
+                    info["connect"] = f"failed:{type(exc).__name__}"
+                    R.extra_faults["authentication_refused"] += 1
+                await asyncio.sleep(0.05)
+            if cfg.get("auth_refused_first"):
+                R.violate("C29.reconnect-after-refusal", "connect-fails-after-refused-authentication",
+                          f"the gateway refused {cfg['auth_refused_first']} authentication(s) and accepts the next one, but "
+                          f"connect() on the same object still failed: {info['connect']}")
 
         tasks.append(loop.create_task(do_connect()))
 
